@@ -143,6 +143,7 @@ impl HuffmanTable {
             // is compressed using two interleaved FSE streams that share
             // a distribution table.
             0..=127 => {
+                vhit!(huf_weights_fse);
                 let fse_stream = &source[1..];
                 if header as usize > fse_stream.len() {
                     return Err(err::NotEnoughBytesForWeights {
@@ -241,6 +242,7 @@ impl HuffmanTable {
             // occupy a full byte.
             _ => {
                 // weights are directly encoded
+                vhit!(huf_weights_direct);
                 let weights_raw = &source[1..];
                 let num_weights = header - 127;
                 self.weights.resize(num_weights as usize, 0);
@@ -398,4 +400,26 @@ pub struct Entry {
 fn highest_bit_set(x: u32) -> u32 {
     assert!(x > 0);
     u32::BITS - x.leading_zeros()
+}
+
+#[cfg(feature = "verif_hooks")]
+impl HuffmanTable {
+    /// Verification hook: (symbol, number of bits) of every entry of the decoding table
+    pub fn verif_entries(&self) -> Vec<(u8, u8)> {
+        self.decode.iter().map(|e| (e.symbol, e.num_bits)).collect()
+    }
+
+    /// Verification hook: the code length of every symbol as determined from the weights
+    pub fn verif_code_lengths(&self) -> Vec<u8> {
+        self.bits.clone()
+    }
+
+    /// Verification hook: mix the state that influences decoding into the fingerprint
+    pub fn verif_fingerprint(&self, h: &mut crate::verif::Fnv) {
+        h.u64(u64::from(self.max_num_bits));
+        h.u64(self.decode.len() as u64);
+        for e in &self.decode {
+            h.bytes(&[e.symbol, e.num_bits]);
+        }
+    }
 }
